@@ -65,7 +65,7 @@ CHECKS = {
         assumptions=COMMON + ["loopback networking is available in the sandbox", "collector and CLI binaries are rebuilt from /repo's working tree by the engine (go build -mod=readonly)"],
         parts=[dict(name="random", run="TestC01Random", checks=dict(quick=36, thorough=150), shards=dict(quick=1, thorough=8), timeout=dict(quick=600, thorough=1800)),
                dict(name="slow", run="TestC01Slow", checks=dict(quick=10, thorough=60), shards=dict(quick=2, thorough=8), timeout=dict(quick=600, thorough=1800)),
-               dict(name="break", run="TestC01Break", checks=dict(quick=6, thorough=60), shards=dict(quick=3, thorough=8), timeout=dict(quick=600, thorough=1800),
+               dict(name="break", run="TestC01Break", checks=dict(quick=6, thorough=60), shards=dict(quick=4, thorough=8), timeout=dict(quick=600, thorough=1800),
                     args=dict(quick=["-c01.maxfill=6000", "-c01.maxstorm=4"], thorough=["-c01.maxfill=12000", "-c01.maxstorm=8"]))],
     ),
     "C12": dict(
